@@ -180,6 +180,48 @@ def run_one(exe, mmodel, script_text, workdir, idx, timeout=120):
     return ri, rm
 
 
+def variant_compare(exe, script_text, workdir, idx, pid):
+    """C07 / C12: the same script under other compute-table / policy settings
+    must produce the same observations (audit lines excepted)"""
+    out = []
+    vs = props.variants(pid, script_text, idx)
+    if not vs:
+        return out, 0
+    def norm(txt):
+        d = parse_obs(txt)
+        return {k: v for k, v in d.items() if not v.startswith("audit")}
+    p0 = os.path.join(workdir, "s%d.script.impl" % idx)
+    base = norm(open(p0).read()) if os.path.exists(p0) else {}
+    n = 0
+    for label, vtxt in vs:
+        pv = os.path.join(workdir, "s%d.v%d.script" % (idx, n))
+        n += 1
+        with open(pv, "w") as f:
+            f.write(vtxt)
+        rv = subprocess.run(["timeout", "120", exe, pv], capture_output=True, text=True, errors="replace")
+        if rv.returncode != 0:
+            out.append(dict(kind="variant-crash", variant=label, rc=rv.returncode, line=0,
+                            detail=(rv.stderr or "")[-300:], script_variant=vtxt))
+            continue
+        ov = norm(rv.stdout)
+        for ln in sorted(set(base) | set(ov)):
+            if base.get(ln) != ov.get(ln):
+                out.append(dict(kind="variant-diff", variant=label, line=ln, base=base.get(ln),
+                                other=ov.get(ln), script_variant=vtxt))
+                break
+        # audits of the variant run must pass as well
+        pvo = pv + ".impl"
+        with open(pvo, "w") as f:
+            f.write(rv.stdout)
+        mm = subprocess.run(["timeout", "120", os.path.join(VERIF, "ocaml", "mmodel"), pv, pvo],
+                            capture_output=True, text=True, errors="replace")
+        for ln, tx in parse_obs(mm.stdout).items():
+            if tx.startswith("audit FAILED") or tx.startswith("audit UNPARSABLE"):
+                out.append(dict(kind="variant-audit", variant=label, line=ln, model=tx, script_variant=vtxt))
+                break
+    return out, n
+
+
 def compare(script_text, ri, rm, pid):
     """returns list of disagreement dicts"""
     out = []
@@ -314,10 +356,14 @@ def main():
                 scripts.append(("%s#%d" % (gname, i), gfun(sub)))
         extra = props.extra_checks(pid, tier, seed, exe, workdir)   # non-script engines (C18/C19 ...)
 
+        nvariants = [0]
+
         def job(t):
             i, (nm, txt) = t
             ri, rm = run_one(exe, mmodel, txt, workdir, i)
-            return nm, txt, ri, rm
+            vd, nv = variant_compare(exe, txt, workdir, i, pid)
+            nvariants[0] += nv
+            return nm, txt, ri, rm, vd
 
         evaluations = 0
         model_lines = 0
@@ -326,9 +372,9 @@ def main():
         dist = {}
         disagreements = []
         with ThreadPoolExecutor(max_workers=16) as ex:
-            for nm, txt, ri, rm in ex.map(job, list(enumerate(scripts))):
+            for nm, txt, ri, rm, vd in ex.map(job, list(enumerate(scripts))):
                 evaluations += 1
-                ds = compare(txt, ri, rm, pid)
+                ds = compare(txt, ri, rm, pid) + vd
                 mobs = parse_obs(rm.stdout)
                 iobs = parse_obs(ri.stdout)
                 model_lines += len(mobs)
@@ -413,6 +459,7 @@ def main():
                 model_lines_compared=model_lines,
                 command_distribution=dist,
                 disagreements=len(disagreements),
+                variant_runs=nvariants[0],
                 translator_ok=tr_ok,
                 extra=extra.get("coverage", {}),
             ),
